@@ -495,7 +495,17 @@ func scenC13(x *Exec) {
 			case "garbage":
 				cd.stream = append(cd.stream, 0, 0, 0, 5, 'h', 'e', 'l', 'l', 'o', 0, 0, 0, 1)
 			case "truncated":
-				cd.stream = append(cd.stream, 0, 0, 1, 0, 0x80, 2, ']')
+				if g.Bool(0.3) {
+					cd.stream = append(cd.stream, 0, 0, 1, 0, 0x80, 2, ']')
+				} else {
+					// a real frame whose sender dies in the middle of the body
+					raw := corpus.Cases[g.Intn(len(corpus.Cases))].raw
+					if len(raw) > 6 {
+						cd.stream = append(cd.stream, raw[:5+g.Intn(len(raw)-5)]...)
+					} else {
+						cd.stream = append(cd.stream, 0, 0, 1, 0, 0x80, 2, ']')
+					}
+				}
 			case "badbody":
 				cd.stream = append(cd.stream, 0, 0, 0, 6, 0x80, 2, ']', 'q', 0xff, 0xfe)
 			}
